@@ -155,12 +155,25 @@ Lemma unknown_length_limit c1 d M :
   (A <= M -> r = BR_File (cin_avail (c_in c1))) /\ (M < A -> r = BR_Err BodyTooLong).
 Proof.
   intros Hrs A r Hd He HM. subst r. unfold read_body_to_file. rewrite Hrs. cbn [orb]. unfold maybe_continue.
-  subst d. cbn [negb]. rewrite He, andb_false_r. unfold sat_succ.
+  subst d. cbn [negb]. unfold copy_unknown. rewrite He, andb_false_r. unfold sat_succ.
   assert (M =? u64_max = false) as -> by (apply N.eqb_neq; lia).
   fold A. split; intros H.
   - assert (N.min (M + 1) A = A) as -> by lia.
     assert (M <? A = false) as -> by (apply N.ltb_ge; lia). cbn [fst]. subst A. rewrite Nat2N.id. now rewrite firstn_all.
   - assert (M <? N.min (M + 1) A = true) as -> by (apply N.ltb_lt; lia). reflexivity.
+Qed.
+
+(* the largest limit: everything is accepted, nothing overflows (repair of D7) *)
+Lemma unknown_length_max_limit c1 :
+  c_rs c1 = RS_Body None false false false -> in_err (ci_in (c_in c1)) = false ->
+  N.of_nat (length (cin_avail (c_in c1))) <= u64_max ->
+  fst (read_body_to_file resp resp_code write_out resp_continue fix16 c1 true u64_max) = BR_File (cin_avail (c_in c1)).
+Proof.
+  intros Hrs He Hlen. unfold read_body_to_file. rewrite Hrs. cbn [orb negb]. unfold maybe_continue, copy_unknown.
+  rewrite He, andb_false_r. unfold sat_succ. rewrite N.eqb_refl.
+  assert (N.min u64_max (N.of_nat (length (cin_avail (c_in c1)))) = N.of_nat (length (cin_avail (c_in c1)))) as -> by lia.
+  assert (u64_max <? N.of_nat (length (cin_avail (c_in c1))) = false) as -> by (apply N.ltb_ge; lia).
+  cbn [fst]. rewrite Nat2N.id. now rewrite firstn_all.
 Qed.
 
 (* bytes written to disk never exceed min(available, M+1) *)
@@ -176,7 +189,7 @@ Proof.
     rewrite firstn_length. lia.
   - destruct (ch || gz); [discriminate|].
     destruct (maybe_continue resp resp_code write_out resp_continue ex c1) as [[e|] c2]; [discriminate|].
-    destruct (negb d); [discriminate|].
+    destruct (negb d); [discriminate|]. unfold copy_unknown.
     match goal with |- context [if ?a then _ else _] => destruct a end; [discriminate|].
     destruct (M <? N.min (sat_succ M) (N.of_nat (length (cin_avail (c_in c2))))) eqn:E; [discriminate|].
     apply N.ltb_ge in E. cbn [fst]. intros [= <-]. rewrite firstn_length. lia.
@@ -216,6 +229,25 @@ Proof.
   - intros Hin. exact (False_ind _ (Hp BV_PendingUnknown I Hin)).
   - match goal with |- context [fin ?c ?l ?f ?aa] => destruct (finish_log c l f aa) as [-> _] end.
     intros [H|[]]; discriminate.
+Qed.
+
+
+(* ---- C04: what is sent is the handler's answer, nothing else ---- *)
+Lemma finish_normal_wire c log files r : c_ws c = WS_Response ->
+  c_wire (oo_conn _ _ (fin c log files (HNormal _ r))) = c_wire c ++ snd (write_out r (is_5xx_close (resp_code r))).
+Proof.
+  intros Hw. unfold finish.
+  pose proof (wresp_wire resp resp_code write_out c r Hw) as H.
+  destruct (is_4xx_5xx (resp_code r)); destruct (write_response resp resp_code write_out c r) as [x c']; exact H.
+Qed.
+Lemma finish_drop_silent c log files :
+  oo_conn _ _ (fin c log files (HDrop _)) = c /\ oo_res _ _ (fin c log files (HDrop _)) = Some Disconnected.
+Proof. split; reflexivity. Qed.
+(* a 4xx / 5xx answer (a handler panic is the answer 500 "Server error") is written and closes *)
+Lemma finish_error_status_closes c log files r : is_4xx_5xx (resp_code r) = true ->
+  oo_res _ _ (fin c log files (HNormal _ r)) = Some Disconnected.
+Proof.
+  intros H. unfold finish. rewrite H. destruct (write_response resp resp_code write_out c r). reflexivity.
 Qed.
 
 (* ---- C10: temp-file events of one request are balanced ---- *)
@@ -342,7 +374,7 @@ Proof.
     rewrite <- Hm. destruct (negb d); [cbn [snd set_rs c_in]; lia|].
     unfold read_exact. destruct (n <=? _); cbn [snd set_rs c_in]; apply consume_le.
   - destruct (maybe_continue resp resp_code write_out resp_continue ex c) as [[e|] c1]; cbn [snd] in *; [rewrite Hm; lia|].
-    rewrite <- Hm. destruct (negb d); [cbn [snd set_rs c_in]; lia|].
+    rewrite <- Hm. destruct (negb d); [cbn [snd set_rs c_in]; lia|]. unfold copy_unknown.
     repeat match goal with |- context [if ?a then _ else _] => destruct a end; cbn [snd set_rs c_in]; apply consume_le.
 Qed.
 
@@ -397,3 +429,31 @@ Proof.
 Qed.
 
 End P.
+
+(* ---- the code before the repairs ---- *)
+(* D5: a pending-body request answered directly ran the handler twice *)
+Definition d5_reader (i : cin) : (herr + (unit * reqmeta)) * cin :=
+  match ci_buf i with
+  | 80 :: t => (inr (tt, mk_meta (BK_Known 10) false false false), mk_cin t (ci_in i))
+  | _ => (inl Disconnected, i)
+  end.
+Definition d5_handler (_ : unit) (_ : bview) : hres N := HNormal _ 413.
+Lemma d5_refuted :
+  let o := handle_once unit N d5_reader (fun r => r) (fun r _ => (None, [r])) 100 true d5_handler false 4 (Some true)
+                       (conn_new (mk_cin [80;1;2;3;4;5;6;7;8;9;10] (mk_in [] [] false))) in
+  length (oo_log _ _ o) = 2%nat.
+Proof. vm_compute. reflexivity. Qed.
+Lemma d5_fixed :
+  let o := handle_once unit N d5_reader (fun r => r) (fun r _ => (None, [r])) 100 true d5_handler true 4 (Some true)
+                       (conn_new (mk_cin [80;1;2;3;4;5;6;7;8;9;10] (mk_in [] [] false))) in
+  length (oo_log _ _ o) = 1%nat /\ c_wire (oo_conn _ _ o) = [413].
+Proof. vm_compute. split; reflexivity. Qed.
+
+(* D7: `max_len + 1` wrapped to 0 for u64::MAX in release builds: take(0) copies nothing and the
+   upload is "accepted" as an empty file *)
+Lemma d7_refuted :
+  fst (copy_unknown ((u64_max + 1) mod 18446744073709551616) u64_max (mk_cin [1;2;3] (mk_in [4;5] [] false))) = BR_File [].
+Proof. vm_compute. reflexivity. Qed.
+Lemma d7_fixed :
+  fst (copy_unknown (sat_succ u64_max) u64_max (mk_cin [1;2;3] (mk_in [4;5] [] false))) = BR_File [1;2;3;4;5].
+Proof. vm_compute. reflexivity. Qed.
